@@ -346,6 +346,9 @@ func (c *channel) Close() error {
 		return c.transport.Close()
 	}
 
+	// A disconnected transport may still hold its connection (for instance,
+	// after the peer closed its end): release it, ignoring that it is not open
+	_ = c.transport.Close()
 	return nil
 }
 
